@@ -225,17 +225,17 @@ def c11_3b(ck, prog):
     TS_ = 'dbus/dbus-transport-socket.c'
     n = 0
     for fn in lib.prod_funcs(prog, {TS_}):
-        auth = [c for b, i, c in fn.calls('do_authentication')
-                if len(c['args']) > 3 and strip_addr(c['args'][3]) is not None]
+        auth = [c for b, i, c in fn.calls('do_authentication')]
         if not auth or not fn.calls('do_reading'):
             continue
         n += 1
-        flagids = {strip_addr(c['args'][3])['id']: strip_addr(c['args'][3])['name'] for c in auth}
+        # the "authentication just completed" out flag (a call that passes NULL for it cannot know)
+        flagids = {strip_addr(c['args'][3])['id']: strip_addr(c['args'][3])['name'] for c in auth
+                   if len(c['args']) > 3 and strip_addr(c['args'][3]) is not None and is_ref(strip_addr(c['args'][3]))}
 
         def on_event(user, ev, ctx, flagids=flagids):
             if ev['ev'] == 'call':
-                if ev['e'].get('callee') == 'do_authentication' and len(ev['e']['args']) > 3 \
-                        and strip_addr(ev['e']['args'][3]) is not None:
+                if ev['e'].get('callee') == 'do_authentication':
                     return 'authed'
                 if ev['e'].get('callee') == 'do_reading' and user == 'authed':
                     ok = False
@@ -341,6 +341,35 @@ def c11_5(ck, prog):
                     r.violation(key, name, M, ev['line'],
                                 'the message length is derived as %s, not as header_len + body_len' % estr(top)[:120])
     r.note('%d uses of the framing lengths examined' % n)
+    # the loader never asks the transport for a zero-byte read: "read the rest of the fixed header" is
+    # requested only while fewer bytes than that are buffered (a read of 0 bytes looks like end-of-file)
+    gb = prog.fn('_dbus_message_loader_get_buffer', M)
+    nst = [0]
+
+    def akey(atom, resolve):
+        if atom[0] == 'cmp' and atom[1] == '<' and is_ref(atom[2]) and is_int(atom[3]):
+            return ('lt', atom[3]['v'], frozenset([atom[2]['id']]))
+        return None
+
+    def on_event(user, ev, ctx):
+        for lhs, how, rhs in written_lvalues(ev):
+            if lhs.get('k') == 'un' and lhs['op'] == '*' and is_ref(lhs['e'], 'max_to_read') and how == '=' \
+                    and isinstance(rhs, dict) and rhs.get('k') == 'bin' and rhs['op'] == '-' and is_int(rhs['l']) \
+                    and is_ref(rhs['r']):
+                nst[0] += 1
+                ok = any(k[0] == 'lt' and k[1] <= rhs['l']['v'] and rhs['r']['id'] in k[2] and v is True
+                         for k, v in ctx.atoms().items())
+                if not ok:
+                    ctx.report('*max_to_read = %s can be 0 (or negative): %s is not known to be smaller than %d here; '
+                               'a zero-byte read is taken for end-of-file' % (estr(rhs), rhs['r']['name'],
+                                                                             rhs['l']['v']), ev['line'], key='zero-read')
+        return user
+    ex = Explorer(gb, on_event=on_event, atom_key=akey, track=None, cap=300000).run()
+    if nst[0]:
+        if ex.reports:
+            r.from_reports(ex.reports, keyfn=lambda k, rep: 'get_buffer:%s' % k)
+        else:
+            r.ok('get_buffer:never-a-zero-byte-read')
 
 
 def run(ck):
